@@ -89,8 +89,8 @@ def build_harness(name, extra_src=(), flags=''):
             mt = os.path.getmtime(out)
             if all(os.path.getmtime(d) <= mt for d in deps) and newest_hdr <= mt:
                 return out
-        cmd = ('g++ -std=c++11 %s %s -I%s/include -I%s/include -I%s/harness %s -o %s %s -lpcap -lssl -lcrypto -lpthread'
-               % (CXXFLAGS, flags, REPO, ASAN, V, src, out + '.tmp', lib))
+        cmd = ('g++ -std=c++11 %s %s -I%s/include -I%s/include -I%s/harness -I%s %s -o %s %s -lpcap -lssl -lcrypto -lpthread'
+               % (CXXFLAGS, flags, REPO, ASAN, V, BUILD, src, out + '.tmp', lib))
         rc, o = sh(cmd, timeout=900)
         if rc != 0:
             raise BuildError('harness %s does not build:\n%s' % (name, o[-4000:]))
